@@ -781,7 +781,7 @@ class Model:
         e = Exp("NICK", ("C15", "C02", "C04"))
         u = self.user_of(cid)
         new = cmd["nick"]
-        if new == "" or " " in new:
+        if new == "" or any(ch.isspace() for ch in new):
             # not a nickname at all (empty / contains a blank): must be refused, nothing changes
             e.props |= {"C13"}
             e.unspec_replies = True
